@@ -102,6 +102,13 @@ def repr_def(rng, did, n=None, repr_=None, anchored=None, kinds="mixed", generic
         E["repr_mode"] = "plain"
     E["anchor_rs"] = anchor_rs
     E["absvals"] = [val for val, _ in vals[:n]]
+    # one explicit discriminant assembled by a macro_rules! helper from an expression fragment: `$e0 * 2 + r` with e0 = `a + 1`
+    E["macro_expr"] = {}
+    if not for_disc and not anchored and rng.random() < 0.3:
+        ks = [k for k, v in enumerate(vs) if v["disc"] and 2 <= E["absvals"][k] <= 100 and not str(v.get("discx", "")).startswith("-")]
+        if ks:
+            k = rng.choice(ks)
+            E["macro_expr"] = dict(k=k, a="%d + 1" % (E["absvals"][k] // 2 - 1), r=E["absvals"][k] % 2)
     has_data = any(v["kind"] != "unit" for v in vs)
     has_explicit = any(v["disc"] for v in vs)
     # rustc: explicit discriminants on an enum with data need a primitive repr; negative values need a signed type
